@@ -199,13 +199,25 @@ pub struct ExecResult {
 
 pub fn exec_replay(path: &str, timeout: Duration) -> ExecResult {
     let exe = std::env::current_exe().unwrap();
+    let err_path = format!("{path}.stderr");
+    let err_file = std::fs::File::create(&err_path).ok();
     let mut child = Command::new(&exe)
         .args(["exec", path])
         .stdout(Stdio::piped())
-        .stderr(Stdio::null())
+        .stderr(err_file.map(Stdio::from).unwrap_or_else(Stdio::null))
         .spawn()
         .expect("spawn exec");
     let start = Instant::now();
+    // drain stdout in a thread so that a chatty child cannot block on a full pipe
+    let mut so = child.stdout.take();
+    let reader = std::thread::spawn(move || {
+        let mut out = String::new();
+        if let Some(so) = so.as_mut() {
+            use std::io::Read;
+            let _ = so.read_to_string(&mut out);
+        }
+        out
+    });
     let status = loop {
         match child.try_wait() {
             Ok(Some(st)) => break Some(st),
@@ -220,11 +232,15 @@ pub fn exec_replay(path: &str, timeout: Duration) -> ExecResult {
             Err(_) => break None,
         }
     };
-    let mut out = String::new();
-    if let Some(mut so) = child.stdout.take() {
-        use std::io::Read;
-        let _ = so.read_to_string(&mut out);
-    }
+    let out = reader.join().unwrap_or_default();
+    let stderr_head: String = std::fs::read_to_string(&err_path)
+        .unwrap_or_default()
+        .lines()
+        .filter(|l| !l.starts_with("feox:"))
+        .take(40)
+        .collect::<Vec<_>>()
+        .join("\n");
+    let _ = std::fs::remove_file(&err_path);
     let outcome = out
         .lines()
         .rev()
@@ -240,9 +256,9 @@ pub fn exec_replay(path: &str, timeout: Duration) -> ExecResult {
                 (None, _) => Some("hang".to_string()),
                 (Some(_), Some(c)) if c == runner::EXIT_HANG => Some("hang".to_string()),
                 (Some(_), Some(0)) => None,
-                (Some(st), _) => Some(format!("crash:{st}")).map(|s| if s.contains("signal") { "crash".to_string() } else { s }),
+                (Some(_), _) => Some("crash".to_string()),
             };
-            ExecResult { rule, detail: format!("process ended with {status:?}"), code, hash: 0 }
+            ExecResult { rule, detail: format!("process ended with {status:?}\n{stderr_head}"), code, hash: 0 }
         }
     }
 }
@@ -554,12 +570,15 @@ pub fn check(property: &str, tier: &str, top: u64) -> i32 {
         match r.rule.as_deref() {
             Some(rule @ ("hang" | "crash")) | Some(rule @ "panic") => {
                 violations_total += 1;
-                let detail = format!("{why}; reproduced as {rule}");
+                let detail = format!("{why}; reproduced as {rule}\n{}", r.detail);
                 if let Some(k) = matches_known(&findings, property, rule, &detail) {
                     known_lines.push(format!("KNOWN-FINDING: property={property} {} [{rule}]", k.what));
                 } else if property == "C18" || property == "C20" || property == "C17" || rule != "hang" {
                     println!("VIOLATION property={property} replay={path}");
-                    println!("  rule: {rule}\n  {detail}");
+                    println!("  rule: {rule}");
+                    for l in detail.lines().take(30) {
+                        println!("  {l}");
+                    }
                     reported.push(path.clone());
                 } else {
                     harness_errors.push(format!("run {run} of {profile}: {detail} (a real hang is decided by the C18 check)"));
